@@ -1426,8 +1426,8 @@ func main() {
 			Enabled:  sc.enabled,
 			Exec:     func(h []event) (string, string, *seqx.Failure) { return sc.exec(h, false) },
 			MaxDepth: d, Workers: workers,
-			// every history of length <= 4 (thorough: 5) is executed whatever the canonical key says
-			NoMergeDepth: ev.Pick(r, 3, 4),
+			// every history of length <= 4 is executed whatever the canonical key says
+			NoMergeDepth: 3,
 		})
 	}
 	for class, vals := range notes {
